@@ -60,7 +60,7 @@ impl Shrink for Case {
     }
 }
 
-fn arb_case() -> BoxedStrategy<Case> {
+pub fn arb_case() -> BoxedStrategy<Case> {
     (any::<bool>(), 0u32..=4)
         .prop_flat_map(|(utf8, depth)| {
             let cfg = GenCfg { utf8, ..GenCfg::default() };
